@@ -101,8 +101,7 @@ def handleHistory (j : Json) : Json :=
   let anyForeign := outs.any (fun e => e.st.foreign)
   let kinds := outs.map (fun e => match e.inp.entry with | .file => "F" | .data => "D" | .dataWithPath => "P")
   let branches := (outs.flatMap stepBranches).eraseDups ++ ["history", "history." ++ "".intercalate kinds] ++
-    (if outs.any (fun e => !e.inp.known.isEmpty && e.st.tr.contains 6) then ["history.cached.document"] else []) ++
-    (if outs.any (fun e => !e.inp.known.isEmpty && e.st.tr.contains 1) then ["history.resolved.before"] else [])
+    (if outs.length > 2 then ["history.three"] else [])
   jobj [
     ("model", jobj [("steps", Json.arr (outs.map (fun e =>
         jobj [("log", jstrs (e.st.log.map renderUrl)), ("ok", Json.bool e.ok)])).toArray),
@@ -110,7 +109,7 @@ def handleHistory (j : Json) : Json :=
     ("spec", jobj [("steps", Json.arr (outs.map (fun e =>
         let cands : List (Option Url) := e.inp.root :: (e.inp.store.map (fun x => some x.1))
         jobj [("allowed", Json.bool e.inp.allowed), ("root", optUrl e.inp.root),
-              ("known", jstrs (e.inp.known.map renderUrl)),
+              ("known", jstrs []),
               ("edges", Json.arr ((specEdges e.inp cands).map (fun x => Json.arr #[optUrl x.1, Json.str (renderUrl x.2)])).toArray),
               ("modelOK", Json.bool (specB e.inp e.st.log))])).toArray)]),
     ("excl", jstrs (if anyForeign then ["ForeignBase"] else [])),
